@@ -433,6 +433,11 @@ func (p *Parser) ParseMemberExpression(left ast.Expression) ast.Expression {
 		Computed: false,
 	}
 	p.NextToken()
+	// only a property name (an identifier or a keyword) can follow the dot
+	if t := p.CurrentToken.Type; t != token.IDENT && (t < token.FUNCTION || t > token.NULL) {
+		p.AddError(fmt.Sprintf("property name expected after '.', got %s", p.CurrentToken.Literal))
+		return nil
+	}
 	exp.Property = p.expressionParseFn(p, MEMBER)
 	return exp
 }
